@@ -190,7 +190,7 @@ fn dat_vectors<C: WireCurve>(ctx: &Ctx, file: &str, compressed: bool)
 where
     C::K: WireField,
 {
-    let path = format!("/repo/src/bls12_381/tests/{}", file);
+    let path = format!("{}/src/bls12_381/tests/{}", crate::infra::repo_root(), file);
     let data = match std::fs::read(&path) {
         Ok(d) => d,
         Err(_) => {
